@@ -89,8 +89,8 @@ class WebsocketFrame:
         self.payload_length = byte & 0b01111111
 
     def build(self) -> bytes:
-        if self.payload_length is None and self.data:
-            self.payload_length = len(self.data)
+        if self.payload_length is None:
+            self.payload_length = len(self.data) if self.data else 0
         raw = io.BytesIO()
         raw.write(
             struct.pack(
@@ -131,10 +131,11 @@ class WebsocketFrame:
                 f'Invalid payload_length { self.payload_length},'
                 f'maximum allowed { 1 << 64}',
             )
-        if self.masked and self.data:
+        if self.masked:
             mask = secrets.token_bytes(4) if self.mask is None else self.mask
             raw.write(mask)
-            raw.write(self.apply_mask(self.data, mask))
+            if self.data:
+                raw.write(self.apply_mask(self.data, mask))
         elif self.data:
             raw.write(self.data)
         return raw.getvalue()
@@ -160,7 +161,7 @@ class WebsocketFrame:
             self.mask = raw[cur: cur + 4]
             cur += 4
 
-        assert self.payload_length
+        assert self.payload_length is not None
         self.data = raw[cur: cur + self.payload_length]
         cur += self.payload_length
         if self.masked:
